@@ -120,7 +120,7 @@ def main():
                 "type_structures_compared_with_book": nt, "value_layouts_compared_with_book": nv, "exhaustive": True}
 
     return suite.run_property(
-        "C07", cs, kani=True, pre_violations=bad,
+        "C07", cs, kani=True, pre_violations=bad, rejection_is_violation=True,
         technique="Kani/CBMC bounded model checking of the layout step (as_node) + SMT (z3 QF_UFBV) proof that every admissible cast of the family preserves all bits + enumeration of cast admissibility and type structures against the book's casting table",
         functions=["array.rs: BTreeSlice::as_node, Partition::{from_slice,as_node} (Kani)", "types.rs: UIntType::{bit_width,from_bit_width,two_n,byte_width} (Kani), StructuralType::from(&ResolvedType) (structure comparison)",
                    "value.rs: StructuralValue::from(&Value) (value layout comparison on samples)", "ast.rs: cast admissibility (TypeCast); compile.rs: cast compiled as a no-op"],
